@@ -14,8 +14,8 @@ Context {D SY : Type} (dops : dict_ops D) (sops : syl_ops SY) (conv : conv_fn).
    the editor performs (EdInstProofs shows the instance used in the correspondence satisfies it) *)
 Variable dict_ok : D -> Prop.
 Hypothesis ok_lookup : forall d f, dict_ok d -> do_lookup dops d f [] = [].
-Hypothesis ok_add : forall d k t f, dict_ok d -> length t <= length k -> dict_ok (fst (do_add dops d k t f)).
-Hypothesis ok_update : forall d k t f u tm, dict_ok d -> length t = length k -> k <> [] -> dict_ok (do_update dops d k t f u tm).
+Hypothesis ok_add : forall d k t f, dict_ok d -> length t <= length k -> (f <= 100)%N -> dict_ok (fst (do_add dops d k t f)).
+Hypothesis ok_update : forall d k t f u tm, dict_ok d -> length t = length k -> k <> [] -> (u <= MAX_USER_FREQ)%N -> dict_ok (do_update dops d k t f u tm).
 Hypothesis ok_remove : forall d k t, dict_ok d -> dict_ok (do_remove dops d k t).
 (* the layout's table of alternative syllables does not depend on the keys typed so far *)
 Hypothesis alt_stable : forall x c, so_alt sops (so_clear sops x) c = so_alt sops x c.
